@@ -349,11 +349,71 @@ class Gen:
         sp = self.spans()
         return {"kind": "F", "spans": sp, "expr": self.filt(depth, len(sp) + 1, allow_bad)}
 
+    def marker_stack(self, nctx):
+        """hint-merge / marker shapes: a tree that combines a None-like half with a hinted half (per-layer filter or
+        global filter), in every order and wrapper, stacked with layers that have no hint (plain, Identity, a
+        per-layer filter without hint) or another hint - the cases in which pick_level_hint's none / PSF branches
+        decide whether a one-sided hint is published"""
+        r = self.r
+
+        def rec():
+            self.rec_id += 1
+            return ("rec", self.rec_id)
+
+        def noneish():
+            k = r.choice(["lnone", "lnone", "vec0", "some", "box", "reload", "pair"])
+            return {"lnone": ("lnone",), "vec0": ("vec", []), "some": ("lsome", ("lnone",)), "box": ("lbox", ("lnone",)),
+                    "reload": ("lreload", ("lnone",)), "pair": ("pair", ("lnone",), ("vec", []))}[k]
+
+        def hinted():
+            k = r.choice(["filt", "filt", "filt", "glob", "filtnohint"])
+            if k == "filt":
+                return ("filt", rec(), r.choice([("lvl", self.lvl()), ("tgt", [(r.choice([None, "a", "b"]), self.lvl())]),
+                                                 ("some", ("lvl", self.lvl())), ("and", ("lvl", self.lvl()), ("lvl", self.lvl()))]))
+            if k == "glob":
+                return ("glob", ("lvl", self.lvl()))
+            return ("filt", rec(), ("not", ("lvl", self.lvl())))
+
+        def unhinted():
+            k = r.choice(["rec", "rec", "ident", "filtnohint", "some", "pairrec"])
+            if k == "rec":
+                return rec()
+            if k == "ident":
+                return ("ident",)
+            if k == "filtnohint":
+                return ("filt", rec(), r.choice([("not", ("lvl", self.lvl())), ("none",), ("fn", self.table(1, None), None)]))
+            if k == "some":
+                return ("lsome", rec())
+            return ("pair", rec(), rec())
+
+        def tree():
+            parts = [noneish(), hinted()]
+            if r.random() < 0.3:
+                parts.append(r.choice([noneish, hinted, unhinted])())
+            r.shuffle(parts)
+            k = r.choice(["pair", "pair", "pair", "vec"])
+            if k == "vec":
+                t = ("vec", parts)
+            else:
+                t = parts[0]
+                for q in parts[1:]:
+                    t = ("pair", t, q) if r.random() < 0.5 else ("pair", q, t)
+            w = r.choice([None, None, None, "lbox", "lsome"])
+            return (w, t) if w else t
+
+        layers = [tree()]
+        for _ in range(r.choice([1, 1, 2])):
+            layers.append(r.choice([unhinted, unhinted, unhinted, hinted, noneish])())
+        r.shuffle(layers)
+        return layers[:4]
+
     def stack_case(self, malformed=False):
         r = self.r
         sp = self.spans()
-        n = r.choice([1, 1, 2, 2, 2, 3, 3, 4])
         self.rec_id = 0
+        if not malformed and r.random() < 0.12:
+            return {"kind": "S", "spans": sp, "expr": self.marker_stack(len(sp) + 1)}
+        n = r.choice([1, 1, 2, 2, 2, 3, 3, 4])
         layers = [self.layer(r.choice([0, 1, 1, 2, 2, 3]), len(sp) + 1, malformed) for _ in range(n)]
         return {"kind": "S", "spans": sp, "expr": layers}
 
